@@ -144,6 +144,21 @@ def markFrom : Bool → List Seg → Bool
 directly followed by an intersection collector `&(…)` (finding C08-6: `/()&(b)` loses the `&`). -/
 def fslashExpressible (segs : List Seg) : Bool := markFrom true segs
 
+/-- the last segment of the list is a collector (`ac` for the empty list) -/
+def lastIsColl : Bool → List Seg → Bool
+  | ac, [] => ac
+  | _, s :: r => lastIsColl (isColl s) r
+
+/-- Segments whose canonical text can be appended behind a separator (`YAMLPath.append`).  Right
+after a separator the parser looks for an anchor mark, so an intersection collector `&(…)` appended
+there loses its operator (same cause as finding C08-6); and directly after a collector an anchor
+whose name starts with `+`, `-` or `&` (appended as `&+x`) is read as a collector operator. -/
+def appendable (afterColl : Bool) : Seg → Bool
+  | (.collector, .collector _ .inter) => false
+  | (.anchor, .str a) =>
+    !(afterColl && (a.head? = some '+' || a.head? = some '-' || a.head? = some '&'))
+  | _ => true
+
 /-- In dot notation a path whose text starts with `/` is, by the notation's own definition, a
 forward-slash path; such lists are outside dot notation. -/
 def dotExpressible (segs : List Seg) : Bool := (write false segs).head? ≠ some '/'
